@@ -102,7 +102,7 @@ func init() {
 // siteDeleteUser: `site delete <Type.field | map type> requires <expr>` with `key` bound to the deleted key
 func (f *Frame) siteDeleteUser(c *ssa.CallCommon, h, k Val, pos token.Pos) {
 	rc := f.rootContract()
-	if len(rc.Sites) == 0 {
+	if rc == nil {
 		return
 	}
 	fieldPat := ""
@@ -114,6 +114,10 @@ func (f *Frame) siteDeleteUser(c *ssa.CallCommon, h, k Val, pos token.Pos) {
 		}
 	}
 	typePat := strings.ReplaceAll(types.TypeString(c.Args[0].Type(), func(p *types.Package) string { return "" }), " ", "")
+	if fieldPat != "" {
+		defer f.flagEvent("delete:" + fieldPat)
+	}
+	defer f.flagEvent("delete:" + typePat)
 	for _, s := range rc.Sites {
 		if s.Kind != "delete" || (s.Pattern != fieldPat && s.Pattern != typePat) {
 			continue
